@@ -92,6 +92,15 @@ def resolve(name, params, d, rng):
         out[key] = layout(D.spd_matrix(rng, d, cond=20.0).astype(np.float32))
       else:
         out[key] = layout(D.spd_matrix(rng, d, cond=20.0))
+    elif val == '@spd-ill':
+      # strictly positive definite but badly conditioned (1e8 .. 3e9): every
+      # eigenvalue is far above any rounding-level cut-off (d eps max) and
+      # above LSML's absolute floor of 1e-8
+      Q = D.random_orthogonal(rng, d)
+      w = 1e-3 * 10.0 ** np.linspace(0, rng.uniform(8, 9.5), d)
+      rng.shuffle(w)
+      M_ = (Q * w).dot(Q.T)
+      out[key] = layout((M_ + M_.T) / 2)
     elif val == '@aniso':
       # a strongly anisotropic transformation (it reorders neighbours)
       Q = D.random_orthogonal(rng, d)
